@@ -319,6 +319,15 @@ type c01Failure struct {
 // c01Run executes the history in one mode and returns the first failure of the property's oracle (or of the
 // correspondence with the model, when withModel is set and the oracle holds everywhere).
 func c01Run(h *c01Hist, mode string, seed int64, refs map[int]string, withModel bool, evals *int) *c01Failure {
+	// the pristine references are computed before the run, not in between its operations: computing one empties the
+	// pools, which must not happen to the state the history itself builds up
+	for k, o := range h.Ops {
+		if o.Kind == "render" || o.Kind == "load" {
+			if _, ok := refs[k]; !ok {
+				refs[k] = c01Pristine(h, k)
+			}
+		}
+	}
 	// every run starts from empty pools: a failure then depends on the history alone and can be shrunk and replayed
 	// (what happened "earlier in the process" is the operations of the history: other templates, other engines,
 	// failing renders, parses, explicit poison operations)
@@ -340,11 +349,7 @@ func c01Run(h *c01Hist, mode string, seed int64, refs map[int]string, withModel 
 		got, out := c01Exec(es, o, seed+int64(o.K0))
 		if o.Kind == "render" || o.Kind == "load" {
 			*evals++
-			ref, ok := refs[k]
-			if !ok {
-				ref = c01Pristine(h, k)
-				refs[k] = ref
-			}
+			ref := refs[k]
 			if got != ref {
 				return &c01Failure{K: k, Kind: "oracle", Expected: ref, Observed: got,
 					Detail: fmt.Sprintf("%s of %s on engine %d in mode %q differs from the same call on freshly created engines holding only the registrations (pristine reference)", o.Kind, c01Name(o.N), o.E, mode)}
